@@ -164,6 +164,15 @@ S('hest::NotificationStructure', 'new', [u8(lambda P: discr('type'), 'type'), u8
 # ------------------------------------------------------------------ RQSC
 T('rqsc::RQSC', 'new', HDR(b'RQSC', 1) + [u32(0, 'count:controllers')], entries=[('add_controller', 'rqsc::QoSController')], first_entry=40)
 S('rqsc::QoSController', 'new', [u8(lambda P: discr('controller_type'), 'type'), u8(0, 'reserved'), u16(28, 'len')] + GAS12('register_interface_address') + [u32('rcid_count'), u32('mcid_count'), u16('controller_flags'), u16(0, 'count:resources')], 'RQSC')
+R = 'resource_id'
+rid_type = lambda P: ite(isv(R, 'Cache'), C(0), ite(isv(R, 'MemoryAffinityStructure'), C(1), ite(isv(R, 'ACPIDevice'), C(2), ite(isv(R, 'PCIDevice'), C(3), A_(R + '.VendorSpecific.0')))))
+rid_len = lambda P: ite(isv(R, 'Cache'), C(12), ite(isv(R, 'MemoryAffinityStructure'), C(20), ite(isv(R, 'ACPIDevice'), C(12), ite(isv(R, 'PCIDevice'), C(12), ('len', A_(R + '.VendorSpecific.1'))))))
+S('rqsc::ResourceStructure', 'new', [u8(lambda P: discr('resource_type'), 'type'), u8(0, 'reserved'), u16(lambda P: add(C(8), rid_len(P)), 'len'), u16('resource_flags'), u8(0, 'reserved'), u8(rid_type),
+    opt(lambda P: isv(R, 'Cache'), [u32(R + '.Cache.0.cache_id'), u32(R + '.Cache.0._reserved_resource_id_1'), u32(R + '.Cache.0._reserved_resource_id_2')],
+     [opt(lambda P: isv(R, 'MemoryAffinityStructure'), [u32(R + '.MemoryAffinityStructure.0.proximity_domain'), u32(R + '.MemoryAffinityStructure.0._reserved_resource_id_1'), u32(R + '.MemoryAffinityStructure.0._reserved_resource_id_2'), u64(R + '.MemoryAffinityStructure.0.raw_bandwidth_per_block')],
+      [opt(lambda P: isv(R, 'ACPIDevice'), [u64(R + '.ACPIDevice.0.acpi_hardware_id'), u32(R + '.ACPIDevice.0.acpi_unique_id')],
+       [opt(lambda P: isv(R, 'PCIDevice'), [u32(R + '.PCIDevice.0.bdf'), u32(R + '.PCIDevice.0._reserved_resource_id_1'), u32(R + '.PCIDevice.0._reserved_resource_id_2')],
+        [('rawvar', R + '.VendorSpecific.1')])])])])], 'RQSC')
 # ------------------------------------------------------------------ fixed tables
 T('bert::BERT', 'new', HDR(b'BERT', 1) + [u32('error_region_length'), u64('error_region_base')])
 T('spcr::SPCR', 'sbi', HDR(b'SPCR', 4) + [u8(0x15), raw(bytes(3), 3, 'reserved')] + GAS_DEFAULT + [u8(0), u8(0), u32(0), u8(0), u8(0), u8(0), u8(0), u8(0), u8(0), u16(0xffff), u16(0xffff), u8(0), u8(0), u8(0), u32(0), u8(0), u32(0), u32(0),
